@@ -249,6 +249,50 @@ def forms_for(detector, b):
     return F
 
 
+KEYWORDS = ['if', 'is', 'do', 'as', 'for', 'new', 'try', 'int', 'uint', 'bool', 'this', 'true', 'false', 'else', 'byte', 'bytes', 'emit',
+            'enum', 'type', 'wei', 'gwei', 'days', 'hex', 'var', 'in', 'of', 'let', 'using', 'while', 'break', 'catch', 'error', 'event',
+            'fixed', 'ufixed', 'final', 'hours', 'weeks', 'ether', 'throw', 'super', 'after', 'alias', 'apply', 'auto', 'case', 'copyof',
+            'default', 'define', 'delete', 'return', 'public', 'string', 'struct', 'pragma', 'import', 'memory', 'payable', 'private',
+            'address', 'mapping', 'storage', 'virtual', 'abstract', 'contract', 'external', 'function', 'internal', 'library', 'modifier',
+            'override', 'constant', 'continue', 'calldata', 'interface', 'immutable', 'anonymous', 'assembly', 'indexed', 'returns', 'revert',
+            'seconds', 'minutes', 'unchecked', 'constructor', 'fallback', 'receive', 'pure', 'view', 'switch', 'leave', 'null', 'typeof',
+            'static', 'sizeof', 'sealed', 'relocatable', 'reference', 'promise', 'partial', 'mutable', 'match', 'macro', 'inline', 'implements',
+            'unicode', 'years', 'szabo', 'finney', 'supports']
+
+
+def symbolic_ident(tag, maxlen=10):
+    """identifier whose spelling is a Z3 string: [A-Za-z_][A-Za-z0-9_]*, at most maxlen characters, not a keyword"""
+    v = z3.String('ident_' + tag)
+    first = z3.Union(z3.Range('a', 'z'), z3.Range('A', 'Z'), z3.Re('_'))
+    rest = z3.Union(first, z3.Range('0', '9'))
+    cons = [z3.InRe(v, z3.Concat(first, z3.Star(rest))), z3.Length(v) <= maxlen]
+    cons += [v != z3.StringVal(k) for k in KEYWORDS] + [z3.Not(z3.PrefixOf(z3.StringVal(p), v)) for p in ('uint', 'int', 'bytes', 'fixed', 'ufixed')]
+    return Str(v), cons
+
+
+def symbolic_name_forms(detector, b):
+    """forms in which the identifier the detector looks for is a SYMBOLIC string: the solver decides the report for every spelling.
+    -> list of (label, expression, constraints)"""
+    v, n = b.var, b.num
+    out = []
+    if detector == 'multiple_require':
+        nm, c = symbolic_ident('callee')
+        out.append(('<name>(a && c)', b.call(v(nm), [b.bin('And', v('a'), v('c'))]), c))
+    elif detector == 'solidity_keccak256':
+        nm, c = symbolic_ident('callee', 12)
+        out.append(('<name>(x)', b.call(v(nm), [v('x')]), c))
+    elif detector == 'unsafe_erc20_operation':
+        nm, c = symbolic_ident('member', 14)
+        out.append(('t.<name>(a, 1)', b.call(b.member(v('t'), nm), [v('a'), n(1)]), c))
+    elif detector == 'cache_array_length':
+        nm, c = symbolic_ident('member')
+        out.append(('i < arr.<name>', b.bin('Less', v('i'), b.member(v('arr'), nm)), c))
+    elif detector == 'address_balance':
+        nm, c = symbolic_ident('member')
+        out.append(('address(x).<name>', b.member(addr(b, v('x')), nm), c))
+    return out
+
+
 def shift_math_forms(b):
     v, n = b.var, b.num
     sym = lambda tag: b.num(sol.DecStr(z3.BitVec('lit_' + tag, 130), 130))
